@@ -8,7 +8,6 @@ impl Ed25519PK {
 #[verifier::external_body] pub struct ConsensusProof { _p: u8 }
 impl View for ConsensusProof { type V = Map<Ed25519PK, Bytes>; uninterp spec fn view(&self) -> Map<Ed25519PK, Bytes>; }
 pub open spec fn keyseq<'a, V>(r: Seq<(&'a Ed25519PK, V)>) -> Seq<Ed25519PK> { Seq::new(r.len(), |i: int| *r[i].0) }
-pub open spec fn derefseq<'a, T>(r: Seq<&'a T>) -> Seq<T> { Seq::new(r.len(), |i: int| *r[i]) }
 impl ConsensusProof {
     #[verifier::external_body]
     pub fn iter(&self) -> (r: Vec<(&Ed25519PK, &Bytes)>)
